@@ -180,7 +180,18 @@ int ops_table(char **args, int na)
 		} else {
 			o->fd = open(o->path, O_RDWR | O_CREAT | O_EXCL, 0644);
 			if (o->fd < 0) return -1;
-			if (prelen && write(o->fd, pre, prelen) != (ssize_t)prelen) return -1;
+			/* pos=eof (default): the descriptor stands at the end of the bytes already written;
+			   pos=inside: more bytes follow the current offset (a container being rewritten in place; truncated at w.fin);
+			   pos=hole: nothing written yet, the descriptor was moved forward (reserved header: reads as zeros, which is what
+			   the generator passes as pre) */
+			const char *pos = kv(a, n, "pos");
+			if (pos && !strcmp(pos, "hole")) { if (lseek(o->fd, (off_t)prelen, SEEK_SET) < 0) return -1; }
+			else if (prelen && write(o->fd, pre, prelen) != (ssize_t)prelen) return -1;
+			if (pos && !strcmp(pos, "inside")) {
+				uint8_t junk[97]; memset(junk, 0xEE, sizeof junk);
+				if (write(o->fd, junk, sizeof junk) != (ssize_t)sizeof junk || lseek(o->fd, (off_t)prelen, SEEK_SET) < 0) return -1;
+				o->truncate_at_fin = 1;
+			}
 			o->p = mtbl_writer_init_fd(o->fd, wo);
 		}
 		free(pre);
@@ -198,6 +209,7 @@ int ops_table(char **args, int na)
 	if (!strcmp(op, "w.fin") && na == 2) {
 		struct obj *o = getobj(args[1], K_WRITER); if (!o || !o->p) return -1;
 		struct mtbl_writer *w = o->p; mtbl_writer_destroy(&w); o->p = NULL;
+		if (o->fd >= 0 && o->truncate_at_fin) { off_t e = lseek(o->fd, 0, SEEK_CUR); if (e >= 0 && ftruncate(o->fd, e)) return -1; o->truncate_at_fin = 0; }
 		if (o->fd >= 0) { close(o->fd); o->fd = -1; }
 		if (o->aux) { struct mtbl_threadpool *tp = o->aux; mtbl_threadpool_destroy(&tp); o->aux = NULL; }
 		size_t n; uint8_t *f = read_file(o->path, &n); if (!f) return -1;
